@@ -375,12 +375,35 @@ def mps_slots(m):
     return out
 
 
+def _tie(rng, ks, zi):
+    """Tie stream: make the largest coefficients EXACTLY equal (legal values: the selection is then the
+    first maximum, what torch.argmax returns and what summary()/export() use).  In place.
+    top-2 tie / all equal / tie between the 0-bit alternative and the maximum / left alone."""
+    n = len(ks)
+    if n < 2:
+        return
+    r = rng.random()
+    order = sorted(range(n), key=lambda i: -ks[i])
+    if r < 0.4:
+        ks[order[1]] = ks[order[0]]
+    elif r < 0.55:
+        for i in range(n):
+            ks[i] = ks[order[0]]
+    elif r < 0.75 and zi is not None:
+        ks[zi] = ks[order[0]]
+    elif r < 0.85 and n >= 3:
+        ks[order[1]] = ks[order[0]]
+        ks[order[2]] = ks[order[0]]
+
+
 def set_alphas(m, cfg):
     """Margin-separated coefficients (multiples of 1/16, gaps >= 1/16), one draw per quantizer object
     in slot order; per-channel matrices column by column, with the 0-bit row winning with
-    probability `prune_p` (at least one channel per object stays alive)."""
+    probability `prune_p` (at least one channel per object stays alive).  With cfg['ties'] the tie
+    stream `_tie` is applied to every vector / column."""
     import torch
     rng = random.Random(cfg['aseed'])
+    ties = bool(cfg.get('ties'))
     seen = set()
     with torch.no_grad():
         for tag, name, mod, node in mps_slots(m):
@@ -394,6 +417,8 @@ def set_alphas(m, cfg):
                 a = q.alpha
                 if a.dim() == 1:
                     ks = rng.sample(range(64), a.shape[0])
+                    if ties:
+                        _tie(rng, ks, None)
                     a.copy_(torch.tensor([k / 16 for k in ks]))
                 else:
                     zi = getattr(q, 'zero_index', None)
@@ -413,14 +438,15 @@ def set_alphas(m, cfg):
                                     mx2 = max(range(len(ks)), key=lambda r: ks[r])
                                     if mx2 == zi:
                                         ks[zi], ks[other] = ks[other], ks[zi]
-                            if max(range(len(ks)), key=lambda r: ks[r]) != zi:
-                                alive += 1
+                        if ties:
+                            _tie(rng, ks, zi)
+                        if zi is not None and max(range(len(ks)), key=lambda r: ks[r]) != zi:
+                            alive += 1       # `max` returns the FIRST maximum, like torch.argmax
                         cols.append(ks)
                     if zi is not None and alive == 0:
                         ks = cols[0]
-                        mx = max(range(len(ks)), key=lambda r: ks[r])
-                        other = [r for r in range(len(ks)) if r != zi][0]
-                        ks[mx], ks[other] = ks[other], ks[mx]
+                        for r in range(len(ks)):
+                            ks[r] = 0 if r == zi else 8 + r
                     a.copy_(torch.tensor([[cols[c][r] / 16 for c in range(a.shape[1])]
                                           for r in range(a.shape[0])]))
 
